@@ -449,5 +449,8 @@ def run(ctx):
         errprop(ctx, PFB, paths, body, rule="D2-ERRPROP", no_effects_after_error=("Vec::push",), floor=1)
 
     # ---- D4
+    # blank tests tabulated over all 256 byte values (any spelling); the command word's own separator test (`== b' '`) is not a blank test
+    check_blank_sets(ctx, "D4-BLANKSET", PFB, floor=1)
+    check_blank_sets(ctx, "D4-BLANKSET", EFB, floor=1, ignore=lambda acc: acc == {" "})
     n = bytews_sites(ctx, PFB) + bytews_sites(ctx, EFB)
     ctx.note("unicode char predicate sites in the two scanners: %d" % n)
